@@ -38,7 +38,7 @@ structure Entry where
 structure Dir where
   entries : List Entry
   nLocal : Nat
-  deriving Repr
+  deriving DecidableEq, Repr
 
 /-- the entries the lookups are about -/
 def Dir.locals (d : Dir) : List Entry := d.entries.take d.nLocal
@@ -313,16 +313,18 @@ def getRegistered (s : Repo) (ns : Str) : Option TL :=
   | some t => some t
   | none => lookupNs s.lazy ns
 
+/-- a `DirEntry *` of typelib `t` wrapped by `_g_info_new_full` -/
+def liftFound (t : TL) : Found → RAns
+  | .entry i e => .info ⟨t.ns, i, e⟩
+  | .null => .null
+  | .oob => .oob
+
 /-- `g_irepository_find_by_name`; `g_return_val_if_fail (typelib != NULL, NULL)` answers NULL for a
     namespace that is not loaded -/
 def findByNameOp (s : Repo) (ns name : Str) : RAns :=
   match getRegistered s ns with
   | none => .null
-  | some t =>
-    match byName t.h t.index t.lib.dir name with
-    | .entry i e => .info ⟨t.ns, i, e⟩
-    | .null => .null
-    | .oob => .oob
+  | some t => liftFound t (byName t.h t.index t.lib.dir name)
 
 /-- `get_registered_status (..., allow_lazy, ...) != NULL` (versions are C17's subject: one
     version per namespace here) -/
@@ -350,8 +352,9 @@ def insertAt (table : List TL) (pos : Nat) (t : TL) : List TL := table.take pos 
 
 /-- `register_internal (repository, source, lazy, typelib, error)` once the dependencies are loaded
     (they are registrations of their own, earlier in the history).  `none` = `g_assert` failed.
+    `clears lazy` = is `g_hash_table_remove_all (priv->unknown_gtypes)` reached on this branch.
     A table holds a key at most once, so stealing the key removes every typelib of that namespace. -/
-def registerInternal (s : Repo) (t : TL) (lazy : Bool) (pos : Nat) : Option Repo :=
+def registerInternalWith (clears : Bool → Bool) (s : Repo) (t : TL) (lazy : Bool) (pos : Nat) : Option Repo :=
   let s' : Option Repo :=
     if lazy then
       match lookupNs s.lazy t.ns with
@@ -362,7 +365,11 @@ def registerInternal (s : Repo) (t : TL) (lazy : Bool) (pos : Nat) : Option Repo
       some { s with lazy := s.lazy.filter (fun x => !(x.ns == t.ns)), eager := insertAt s.eager pos t }
   match s' with
   | none => none
-  | some r => some (if registerClearsUnknown lazy then { r with unknownGTypes := [] } else r)
+  | some r => some (if clears lazy then { r with unknownGTypes := [] } else r)
+
+/-- `register_internal` with the clearing statement where the current source has it -/
+def registerInternal (s : Repo) (t : TL) (lazy : Bool) (pos : Nat) : Option Repo :=
+  registerInternalWith registerClearsUnknown s t lazy pos
 
 /-- `g_irepository_load_typelib (repository, typelib, flags, &error)`, and `require_internal` from
     the point where the typelib file has been found and mapped: a namespace that is registered
@@ -410,11 +417,6 @@ def specFindByGType (libs : List TL) (g : Str) : RAns :=
 def specFindByErrorDomain (libs : List TL) (dom : Str) : RAns := findByErrorDomainIn dom libs
 
 /-! what the history theorem is about (statements only; the proofs are in Lemmas/Lookup.lean) -/
-
-def liftFound (t : TL) : Found → RAns
-  | .entry i e => .info ⟨t.ns, i, e⟩
-  | .null => .null
-  | .oob => .oob
 
 /-- the invariant of the caches: a name in `unknown_gtypes` is absent from EVERY typelib a search
     would look at (loaded or lazily loaded); a cached info is what the typelib-level lookup of a
